@@ -231,6 +231,11 @@ void h_remove (void)
 	__CPROVER_assume (k > 0 && k < KMAX && tag < 16 && probe > 0 && probe < KMAX);
 	BO_ASSUME (kn, vn, tag, probe, k);
 	SPLIT_ASSUME (k);
+#ifdef TWO_CHILD_ROOT
+	/* C14 at the larger height, already in the quick tier: the removed key is the root's and the root has two children -- the
+	 * case in which a pair travels between nodes (predecessor with or without a child of its own); everything else symbolic */
+	__CPROVER_assume (g_present[0] && k == g_key[0] && PRES (1) && PRES (2));
+#endif
 	ppointer oldv = NULL, oldk = NULL, pv = NULL; _Bool existed = pre_member (k, &oldv, &oldk), pm = pre_member (probe, &pv, NULL);
 	unsigned n0 = pre_count ();
 	g_tree_under_remove = t; g_removed_kptr = oldk; g_notified_while_linked = 0;
@@ -249,7 +254,12 @@ void h_remove (void)
 	if (existed && vn && g_nv == 1) OBL (g_vlog[0] == oldv, "C14 remove: the value passed to the notifier is the removed one, not one that stays stored");
 	/* whatever the notifiers, the pairs that stay are intact: the probe key still maps to its own key object */
 	ppointer pk = NULL; if (pm && probe != k) { pre_member (probe, NULL, &pk); OBL (g_found_kptr == pk, "C12/C14 remove: stored pairs keep their own key objects"); }
+#ifdef TWO_CHILD_ROOT
+	if (PRES (LEFT (1)) && !PRES (RIGHT (1))) CANARY ("predecessor is the left child and has a child of its own");
+	if (PRES (RIGHT (1))) CANARY ("predecessor further down");
+#else
 	if (existed) CANARY ("removed"); else CANARY ("absent key");
+#endif
 }
 
 /* ================================================================== lookup / foreach / clear (ptree.c; node layout of the selected type) */
